@@ -163,7 +163,15 @@ pub fn install_panic_hook() {
             .map(|l| format!("{}:{}", l.file(), l.line()))
             .unwrap_or_default();
         if QUIET.with(|q| q.get()) {
-            LAST_PANIC.with(|p| *p.borrow_mut() = Some(format!("{msg} @ {loc}")));
+            let bt = if std::env::var_os("HV_BT").is_some() {
+                // triage aid: HV_BT=1 appends the frames inside the repository crates
+                let b = std::backtrace::Backtrace::force_capture().to_string();
+                let keep: Vec<&str> = b.lines().filter(|l| l.contains("/repo/")).take(14).collect();
+                format!("\n{}", keep.join("\n"))
+            } else {
+                String::new()
+            };
+            LAST_PANIC.with(|p| *p.borrow_mut() = Some(format!("{msg} @ {loc}{bt}")));
         } else {
             default(info);
         }
